@@ -315,26 +315,26 @@ theorem slice_length_le' (d : List UInt8) (c e : Nat) : (slice d c e).length ≤
 section hist
 variable [BEq H] [LawfulBEq H]
 
-/-- **master invariant of histories** (true root, true geometry, non-empty store kind): the final
-sink is the initial one after a labelled list `es` of completed calls, the slot of every node saved
-in `es` holds its true pair at the end, and the backing has not grown beyond the outboard size -/
-theorem hist_master (cf : CollisionFree hf) (hlen : ∀ h, (hf.toBytes h).length = 32)
+omit [LawfulBEq H] in
+/-- **master invariant of a labelled log** (true geometry, non-empty store kind): the slot of every
+node saved in `es` holds its true pair at the end, and the backing has not grown beyond the outboard
+size -/
+theorem log_master (hlen : ∀ h, (hf.toBytes h).length = 32)
     (hd : d.length ≤ 2 ^ 63) (hbs : bs ≤ 10) (ops : List Op) (sink : Sink H)
-    (hroot : sink.ob.root = Spec.root hf d) (htree : sink.ob.tree = ⟨d.length, bs⟩)
-    (hk : sink.ob.kind ≠ .empty) :
-    ∃ (es : List (Ev H)) (P : List Nat), Table H d bs sink.ob.kind P ∧
+    (htree : sink.ob.tree = ⟨d.length, bs⟩) (hk : sink.ob.kind ≠ .empty) {es : List (Ev H)}
+    (h1 : run hf ops sink = applyEvs hf sink es) (h2 : EvsOk hf sink es)
+    (h3 : Trace (EG hf d bs) [] es) :
+    ∃ P : List Nat, Table H d bs sink.ob.kind P ∧
       ((sink.ob.kind = .preIo ∨ sink.ob.kind = .preMem) → P = persistedPre d.length bs) ∧
       ((sink.ob.kind = .postIo ∨ sink.ob.kind = .postMem) → P = persistedPost d.length bs) ∧
-      run hf ops sink = applyEvs hf sink es ∧ EvsOk hf sink es ∧ Trace (EG hf d bs) [] es ∧
       HInv hf d bs es.reverse (run hf ops sink).ob ∧
       (run hf ops sink).ob.data.length ≤ max sink.ob.data.length (P.length * 64) := by
-  obtain ⟨es, h1, h2, h3⟩ := run_log (bs := bs) cf hd ops sink hroot htree
   obtain ⟨P, T, hp1, hp2⟩ := table_exists (H := H) hd hbs hk
   obtain ⟨g1, g2⟩ := evs_holds hlen T es sink [] rfl htree h2 h3
     (fun _ _ _ _ _ h => by cases h)
   rw [List.append_nil, ← h1] at g1
   rw [← h1] at g2
-  exact ⟨es, P, T, hp1, hp2, h1, h2, h3, g1, g2⟩
+  exact ⟨P, T, hp1, hp2, g1, g2⟩
 
 end hist
 
